@@ -254,7 +254,8 @@ def repeat_fragment(rng, lines):
     if m and rng.random() < 0.7:
         x = rng.choice(m)
         return lines[:i] + [l[:x.end()] + " sep%d " % i + x.group(0) + l[x.end():]] + lines[i + 1:]
-    if l[0] in "*#|!" and "<ref name" not in l:      # a named reference is defined once (a second, equal definition is merged by design)
+    # a named reference is defined once (a second, equal definition is merged by design); the name may follow a group attribute
+    if l[0] in "*#|!" and not re.search(r"<ref\b[^>]*\bname", l, re.I):
         return lines[:i + 1] + [l] + lines[i + 1:]
     return lines
 
